@@ -27,8 +27,9 @@ def scribble(r):
     from crysp.bits import Bits
     if isinstance(r, Bits):
         try:
-            r.size = r.size + 1
-            r.ival = r.ival ^ r.mask
+            r.size = r.size + 1              # public size setter
+            for i in range(r.size):
+                r[i] = 1 - r.bit(i)          # public item assignment
         except Exception:
             pass
     elif isinstance(r, list):
